@@ -42,7 +42,7 @@ pub struct Case14 {
 }
 
 /// loss and its gradient w.r.t. every parameter, from the observed parameters and the batch
-fn reference_step(specs: &[LayerSpec], params: &[Vec<(Vec<usize>, Vec<f64>)>], x: &T, target: &T, cost: CostKind) -> Result<(Dual, Vec<Vec<T>>), String> {
+fn reference_step(specs: &[LayerSpec], params: &[Vec<(Vec<usize>, Vec<f64>)>], x: &T, target: &T, target_is_model_of: bool, cost: CostKind) -> Result<(Dual, Vec<Vec<T>>), String> {
     let mut dir = 0;
     let mut pts: Vec<Vec<T>> = vec![];
     for ps in params {
@@ -57,6 +57,18 @@ fn reference_step(specs: &[LayerSpec], params: &[Vec<(Vec<usize>, Vec<f64>)>], x
     for (s, p) in specs.iter().zip(&pts) {
         cur = ref_layer(s, p, &cur).map_err(|e| format!("{:?}", e))?;
     }
+    // the target is either data or the (parameter-dependent, tracked) output of the same stack on a second batch
+    let tt;
+    let target = if target_is_model_of {
+        let mut t = target.clone();
+        for (s, p) in specs.iter().zip(&pts) {
+            t = ref_layer(s, p, &t).map_err(|e| format!("{:?}", e))?;
+        }
+        tt = t;
+        &tt
+    } else {
+        target
+    };
     let c = ref_cost(cost, &cur, target).map_err(|e| format!("{:?}", e))?;
     Ok((ops::sum_all(&c), pts))
 }
@@ -87,8 +99,8 @@ impl Case14 {
         let mut info = RunInfo { why: None, truncated_at: None, nonzero_steps: 0, zero_sum_grads: 0, batch_sizes: vec![] };
         // position in the spy log at which each iteration's update call starts
         let mut snap_of_iter: Vec<usize> = vec![];
-        // one entry per iteration: (x, target, loss)
-        let mut batches: Vec<(T, T, f64)> = vec![];
+        // one entry per iteration: (x, target or the second batch whose output is the target, loss, target is a model output)
+        let mut batches: Vec<(T, T, f64, bool)> = vec![];
         let desc = |it: usize| format!("iteration {} of {} (stack {:?}, cost {:?}, lr {}, batches {:?})", it, self.iters.len(), self.specs, self.cost, self.lr, self.iters.iter().map(|i| i.batch).collect::<Vec<_>>());
         for (it, spec) in self.iters.iter().enumerate() {
             let xd = input_dims(&self.specs, spec.batch, self.rows, self.cols);
@@ -100,6 +112,18 @@ impl Case14 {
             }
             // some batches are all zeros: the pre-activations are the biases, so whole relu layers can be inactive
             let xv = if spec.xseed % 6 == 0 { vec![0.0; numel(&xd)] } else { gen_vals(spec.xseed, numel(&xd), kind) };
+            // target mode 2: the target is the tracked output of the same model on a second batch, so every
+            // parameter is reached twice by the pass (once through the output, once through the target)
+            let model_target = spec.target_mode == 2 && self.cost == CostKind::Mse;
+            let x2v = gen_vals(spec.xseed ^ 0x2222, numel(&xd), kind);
+            let model_t = if model_target {
+                match guarded(|| model.forward(arr(&xd, &x2v))) {
+                    Ok(o) => Some(o),
+                    Err(p) => return e("unexpected-panic", format!("{}: forward on the second batch panicked: {}", desc(it), p)),
+                }
+            } else {
+                None
+            };
             let out = match guarded(|| model.forward(arr(&xd, &xv))) {
                 Ok(o) => o,
                 Err(p) => return e("unexpected-panic", format!("{}: forward panicked: {}", desc(it), p)),
@@ -115,7 +139,11 @@ impl Case14 {
                 gen_vals(spec.xseed ^ 0x7777, n, if self.cost == CostKind::Mse { kind } else { VKind::Pos })
             };
             drop(out);
-            let loss = match guarded(|| model.backward(arr(&od, &tv))) {
+            let target_arr = match model_t {
+                Some(t) => t,
+                None => arr(&od, &tv),
+            };
+            let loss = match guarded(|| model.backward(target_arr)) {
                 Ok(l) => l as f64,
                 Err(p) => return e("unexpected-panic", format!("{}: backward panicked: {}", desc(it), p)),
             };
@@ -129,7 +157,7 @@ impl Case14 {
                     return e("unexpected-panic", format!("{}: a second update without gradients panicked: {}", desc(it), p));
                 }
             }
-            batches.push((T::from_f64(&xd, &xv), T::from_f64(&od, &tv), loss));
+            batches.push(if model_target { (T::from_f64(&xd, &xv), T::from_f64(&xd, &x2v), loss, true) } else { (T::from_f64(&xd, &xv), T::from_f64(&od, &tv), loss, false) });
             info.batch_sizes.push(spec.batch);
         }
         // a final gradient-free update exposes the last parameters
@@ -162,9 +190,9 @@ impl Case14 {
             let cur = snap_at(it);
             let next = snap_at(it + 1);
             let params: Vec<Vec<(Vec<usize>, Vec<f64>)>> = cur.iter().map(|l| l.iter().map(|p| (p.0.clone(), p.1.clone())).collect()).collect();
-            let (x, target, loss) = &batches[it];
+            let (x, target, loss, target_is_model_of) = &batches[it];
             let kinks = ops::kink_count();
-            let (lref, pts) = match reference_step(&self.specs, &params, x, target, self.cost) {
+            let (lref, pts) = match reference_step(&self.specs, &params, x, target, *target_is_model_of, self.cost) {
                 Ok(r) => r,
                 Err(_) => return Err(("discard".into(), "reference could not evaluate the stack".into())),
             };
@@ -321,7 +349,7 @@ pub fn run(ctx: &Ctx) -> i32 {
         let upd = *pseed;
         let cost = if *ce { CostKind::CrossEntropy } else { CostKind::Mse };
         let (specs, rows, cols) = make_stack(b, if *ce { Some(if b[7] & 1 == 0 { Act::Softmax } else { Act::Sigmoid }) } else { None });
-        let iters = its.iter().map(|(batch, xseed, tm, ef)| Iter { batch: *batch, xseed: *xseed, target_mode: (*tm == 0) as u8, extra_forward: *ef, probe_forward_after: (xseed ^ upd) % 5 == 0 }).collect();
+        let iters = its.iter().map(|(batch, xseed, tm, ef)| Iter { batch: *batch, xseed: *xseed, target_mode: if *tm == 0 { 1 } else if *tm == 3 { 2 } else { 0 }, extra_forward: *ef, probe_forward_after: (xseed ^ upd) % 5 == 0 }).collect();
         Some(Case14 { specs, rows, cols, cost, lr: LRS[*lri % LRS.len()], pseed: *pseed, int_data: *int_data && !*ce, iters })
     }));
     // structured: a linear dense layer with integer data and targets = output + cancelling perturbation
@@ -346,6 +374,20 @@ pub fn run(ctx: &Ctx) -> i32 {
         let specs = vec![LayerSpec::Conv { count: 2, depth: 1, fr: f1, fc: f1, sr: 1, sc: 1, act }, LayerSpec::Conv { count: 1, depth: 2, fr: fr2, fc: fc2, sr: sr2, sc: sc2, act: Act::None }];
         let iters = (0..3).map(|k| Iter { batch: if k == 1 { batch } else { 2 - batch }, xseed: i * 10 + k, target_mode: (k % 2) as u8, extra_forward: false, probe_forward_after: false }).collect();
         Some(Case14 { specs, rows, cols, cost: CostKind::Mse, lr: [0.5, 0.125][(i % 2) as usize], pseed: i + 11, int_data: act == Act::None, iters })
+    }));
+    // the target is the tracked output of the same model on a second batch: every parameter has two consumers in one pass
+    st.merge(ctx.run_indexed("target-is-the-models-own-output", 4 * 3 * 2 * 2, None, |i| {
+        let specs = match i % 4 {
+            0 => vec![LayerSpec::Dense { input: 2, output: 2, act: Act::None }],
+            1 => vec![LayerSpec::Dense { input: 3, output: 2, act: Act::Sigmoid }, LayerSpec::Dense { input: 2, output: 2, act: Act::None }],
+            2 => vec![LayerSpec::Conv { count: 2, depth: 1, fr: 2, fc: 2, sr: 1, sc: 1, act: Act::None }],
+            _ => vec![LayerSpec::Dense { input: 1, output: 3, act: Act::Relu }, LayerSpec::Dense { input: 3, output: 1, act: Act::Sigmoid }],
+        };
+        let batch = [2usize, 3, 0][((i / 4) % 3) as usize];
+        let lr = [0.5, 0.125][((i / 12) % 2) as usize];
+        let int_data = (i / 24) % 2 == 0;
+        let iters = (0..3).map(|k| Iter { batch, xseed: i * 10 + k + 1, target_mode: if k == 1 { 0 } else { 2 }, extra_forward: false, probe_forward_after: false }).collect();
+        Some(Case14 { specs, rows: 3, cols: 3, cost: CostKind::Mse, lr, pseed: i + 5, int_data, iters })
     }));
     {
         let rc = crate::modelroute::route_cases("c14", ctx.seed, t == Tier::Thorough);
